@@ -426,7 +426,10 @@ theorem sp14_step_connect_admitted (s : Server) (hs : SyncInv s) (hw : WF s) (co
     (∀ e, assocGet s.clients k.id = some e → sp14_present s k = true →
       (getObj (admitA (connState s conn k) s.objs.length k).1 s.objs.length).inflight = (getObj s e).inflight ∧
       (getObj (admitA (connState s conn k) s.objs.length k).1 s.objs.length).subs =
-        sp14_inheritSubs (getObj s e).subs []) := by
+        sp14_inheritSubs (getObj s e).subs []) ∧
+    (step s (.connect conn k)).1 =
+      (nextImmediate (admitClient (connState s conn k) s.objs.length conn k).1 s.objs.length).1 ∧
+    (step s (.connect conn k)).1.caps = s.caps := by
   have hreg : ∀ c e, assocGet s.clients c = some e → e < s.objs.length :=
     fun c e he => (hw.clients_valid c e (assocGet_mem _ _ _ he)).1
   have hnew := getObj_connState_new s conn k
@@ -493,9 +496,9 @@ theorem sp14_step_connect_admitted (s : Server) (hs : SyncInv s) (hw : WF s) (co
     exact Nat.lt_irrefl _ this
   obtain ⟨_, _, htk, _⟩ := admitA_inv (k := k) hx w1 hlt (by rw [hnew]; rfl) hunreg hpend (by rw [hnew]; rfl)
     (by rw [hnew]; rfl)
-  obtain ⟨B1, _, B3, B4, B5⟩ := sp14_admitClient_new (connState s conn k) s.objs.length conn k hunreg htk
+  obtain ⟨B1, B2, B3, B4, B5⟩ := sp14_admitClient_new (connState s conn k) s.objs.length conn k hunreg htk
   have heq := sp14_connect_admitted_eq s conn k h
-  rw [← heq] at B1 B3 B4 B5
+  rw [← heq] at B1 B2 B3 B4 B5
   have hlive := A4.trans B4
   have hconn : assocGet (connect s conn k).1.connOf conn = some s.objs.length := by
     rw [B3]
@@ -507,7 +510,9 @@ theorem sp14_step_connect_admitted (s : Server) (hs : SyncInv s) (hw : WF s) (co
   have hstep : (step s (.connect conn k)).1 = (nextImmediate (connect s conn k).1 s.objs.length).1 := by
     rw [sp14_step_connect_open s conn k _ hconn ho, sp14_barrier _ conn _ hconn ho hp hin]
   obtain ⟨N1, N2, N3, N4, N5⟩ := sp14_nextImmediate_obj (connect s conn k).1 s.objs.length s.objs.length hin
-  refine ⟨A1, ?_, ?_, ?_, ?_, ?_, ?_, A3, A5, A6⟩
+  refine ⟨A1, ?_, ?_, ?_, ?_, ?_, ?_, A3, A5, A6, by rw [hstep, heq], ?_⟩
+  rotate_left 6
+  · rw [hstep, (nextImmediate_quiet _ _).caps, B2, A3]
   · rw [hstep, N1, B1, A2]
   · rw [hstep, N2]; exact hconn
   · rw [hstep, N3]; exact ho
@@ -526,7 +531,7 @@ theorem sp14_connect_admitted_out (s : Server) (hs : SyncInv s) (hw : WF s) (hcm
   obtain ⟨post, hp, hnp⟩ := admitClient_out (connState s conn k) s.objs.length conn k
   obtain ⟨seiOut, hck⟩ := admitConnack_out (admitA (connState s conn k) s.objs.length k).1 s.objs.length conn
     (admitA (connState s conn k) s.objs.length k).2.2.1
-  obtain ⟨A1, _, _, _, _, _, A7, A8, _, _⟩ := sp14_step_connect_admitted s hs hw conn k hf h
+  obtain ⟨A1, _, _, _, _, _, A7, A8, _, _, _, _⟩ := sp14_step_connect_admitted s hs hw conn k hf h
   have hconn : (connect s conn k).2 = (admitClient (connState s conn k) s.objs.length conn k).2 := by
     rw [sp14_connect_admitted_eq s conn k h]
   have hpre := admitA_out (connState s conn k) s.objs.length k
@@ -575,5 +580,209 @@ theorem sp14_connect_refused_state (s : Server) (conn : Nat) (k : Connect) (code
     simp only [h', hst]
     rfl
   rw [(connect_refused s conn k code h hf).1, e]
+
+/-! ### C35: `ClientsConnected` never passes `MaximumClients` without schedule ops -/
+
+/-- the capabilities are kept and `ClientsConnected` does not grow -/
+structure fc35_R (s s' : Server) : Prop where
+  caps : s'.caps = s.caps
+  le : s'.info.connected ≤ s.info.connected
+
+theorem fc35_R.refl (s : Server) : fc35_R s s := ⟨rfl, Int.le_refl _⟩
+theorem fc35_R.trans {s s1 s2 : Server} (h : fc35_R s s1) (g : fc35_R s1 s2) : fc35_R s s2 :=
+  ⟨g.caps.trans h.caps, Int.le_trans g.le h.le⟩
+
+theorem fc35_detach_connected (s : Server) (i : Nat) (b : Bool) :
+    (detach s i b).1.info.connected = s.info.connected - 1 := by
+  rw [detach_fst, (detachB_quiet _ i).2, (detachA_act s i b).2]
+
+theorem fc35_detach (s : Server) (i : Nat) (b : Bool) : fc35_R s (detach s i b).1 :=
+  ⟨sp14_detach_caps s i b, by rw [fc35_detach_connected]; omega⟩
+
+theorem fc35_receivePacket (s : Server) (i : Nat) (hi : i < s.objs.length) (pk : InPk) :
+    fc35_R s (receivePacket s i pk).1 :=
+  ⟨(receivePacket_own s i hi pk).caps, by rw [(receivePacket_act s i pk).2]; exact Int.le_refl _⟩
+
+theorem fc35_modObj (s : Server) (i : Nat) (f : Client → Client) : fc35_R s (modObj s i f) := ⟨rfl, Int.le_refl _⟩
+
+theorem fc35_recvOn (s : Server) (c : Nat) (pk : InPk) (b : Bool) (hw : WF s) : fc35_R s (recvOn s c pk b).1 := by
+  unfold recvOn
+  split
+  · exact fc35_R.refl s
+  · rename_i i hc
+    have hi : i < s.objs.length := hw.conn_valid c i (assocGet_mem _ _ _ hc)
+    split
+    · exact fc35_R.refl s
+    · split
+      rename_i s1 o e heq
+      have h1 := fc35_receivePacket s i hi pk
+      have hl1 := (receivePacket_frame s i pk).len
+      rw [heq] at h1 hl1
+      have h1 : fc35_R s s1 := h1
+      have hl1 : s1.objs.length = s.objs.length := hl1
+      split
+      · split
+        rename_i s2 o2 hd
+        have := fc35_detach s1 i true
+        rw [hd] at this
+        exact h1.trans this
+      · split
+        · split
+          rename_i s2 o2 hd
+          have := fc35_detach s1 i false
+          rw [hd] at this
+          exact h1.trans this
+        · split
+          · split
+            rename_i s2 o2 e2 heq2
+            have h2 := fc35_receivePacket s1 i (by rw [hl1]; exact hi) .pingreq
+            rw [heq2] at h2
+            have h12 : fc35_R s s2 := h1.trans h2
+            extract_lets +onlyGivenNames o2f
+            split
+            · split
+              rename_i s3 o3 hd
+              have := fc35_detach s2 i true
+              rw [hd] at this
+              exact h12.trans this
+            · exact h12
+          · exact h1
+
+theorem fc35_tickClients_caps (s : Server) (t : Int) : (tickClients s t).1.caps = s.caps := by
+  unfold tickClients
+  refine foldl_inv (fun (acc : Server × List Out) => acc.1.caps = s.caps) _ _ _ rfl ?_
+  intro acc e h
+  extract_lets +onlyGivenNames c
+  split
+  · extract_lets +onlyGivenNames s1 s2
+    show s2.caps = _
+    rw [show s2.caps = s1.caps from unsubscribeClient_caps s1 e.2]
+    exact h
+  · exact h
+
+theorem fc35_tick (s : Server) (kind : String) (t : Int) : fc35_R s (step s (.tick kind t)).1 := by
+  refine ⟨?_, by rw [tick_connected]; exact Int.le_refl _⟩
+  rw [step]
+  split
+  · exact fc35_tickClients_caps s t
+  · split
+    · exact (tickRetained_quiet s t).caps
+    · split
+      · exact (tickInflight_quiet s t).caps
+      · split
+        · exact (tickWills_quiet s t).caps
+        · rfl
+
+/-- every op that is not a schedule op and not a `connect` keeps the capabilities and does not increase
+    `ClientsConnected` -/
+theorem fc35_step_other (s : Server) (op : Op) (hw : WF s) (h0 : 0 < s.objs.length) (hseq : op.isSeq = true)
+    (hnc : ∀ conn k, op ≠ .connect conn k) : fc35_R s (step s op).1 := by
+  cases op with
+  | connect conn k => exact absurd rfl (hnc conn k)
+  | recv conn pk => exact fc35_recvOn s conn pk true hw
+  | drop conn =>
+    rw [step]
+    split
+    · exact fc35_R.refl s
+    · rename_i i hc
+      split
+      · exact fc35_R.refl s
+      · extract_lets +onlyGivenNames s1
+        split
+        rename_i s2 o hd
+        have := fc35_detach s1 i true
+        rw [hd] at this
+        exact (fc35_modObj s i _).trans this
+  | recvCut conn pk =>
+    rw [step]
+    split
+    · exact fc35_R.refl s
+    · rename_i i hc
+      split
+      · exact fc35_R.refl s
+      · extract_lets +onlyGivenNames s1
+        have w1 : WF s1 := WF.of_good hw ((Good.refl s).mod i _ (by cw_rfl))
+        split
+        rename_i s2 o hr
+        have h2 := fc35_recvOn s1 conn pk false w1
+        rw [hr] at h2
+        have h12 : fc35_R s s2 := (fc35_modObj s i _).trans h2
+        split
+        rename_i s3 o2 hd
+        have h23 : fc35_R s2 s3 := by
+          split at hd
+          · cases hd; exact fc35_R.refl _
+          · have := fc35_detach s2 i true
+            rw [hd] at this; exact this
+        exact h12.trans h23
+  | dropHold conn => cases hseq
+  | release conn => cases hseq
+  | dropHoldEarly conn => cases hseq
+  | connectHold conn k stage => cases hseq
+  | tick kind t => exact fc35_tick s kind t
+  | inlinePublish topic payload retain qos =>
+    rw [step]
+    exact fc35_receivePacket s 0 h0 _
+  | inlineSubscribe id filter =>
+    rw [step]
+    split
+    · exact fc35_R.refl s
+    · exact ⟨rfl, Int.le_refl _⟩
+  | inlineUnsubscribe id filter =>
+    rw [step]
+    split
+    · exact fc35_R.refl s
+    · exact ⟨rfl, Int.le_refl _⟩
+
+theorem fc35_admitA_connected (t : Server) (i : Nat) (k : Connect) :
+    (admitA t i k).1.info.connected = t.info.connected + 1 := by
+  cases he : assocGet t.clients k.id with
+  | none => exact (admitA_qc_none t i k he).c
+  | some e =>
+    rw [(admitA_qc_some t i k e he).c, (stopClient_act (incConn t) e).2]
+    rfl
+
+theorem fc35_admitClient_connected (t : Server) (i conn : Nat) (k : Connect) :
+    (admitClient t i conn k).1.info.connected ≤ t.info.connected + 1 := by
+  rw [sp14_admitClient_fst, (admitC_qc _ i k _).c]
+  have h2 := (admitConnack_qc (admitA t i k).1 i conn (admitA t i k).2.2.1).c
+  rw [fc35_admitA_connected] at h2
+  generalize (admitConnack (admitA t i k).1 i conn (admitA t i k).2.2.1).1 = s2 at h2
+  cases (admitA t i k).2.2.2 with
+  | none => show s2.info.connected ≤ _; rw [h2]; exact Int.le_refl _
+  | some e =>
+    show (detach s2 e true).1.info.connected ≤ _
+    rw [fc35_detach_connected, h2]; omega
+
+/-- an admitted CONNECT found `ClientsConnected` below `MaximumClients` -/
+theorem fc35_admitted_below (t : Server) (k : Connect) (c : Client) (h : refuseCode t k c = none) :
+    t.info.connected < t.caps.maximumClients := by
+  unfold refuseCode at h
+  by_cases hge : t.info.connected ≥ t.caps.maximumClients
+  · rw [if_pos hge] at h; cases h
+  · omega
+
+/-- the `connect` op on a fresh connection: the capabilities are kept; refused, `ClientsConnected` is unchanged;
+    admitted, it was below `MaximumClients` and grows by at most one -/
+theorem fc35_step_connect (s : Server) (hs : SyncInv s) (hw : WF s) (conn : Nat) (k : Connect)
+    (hf : conn ∉ s.connOf.map (·.1)) :
+    (step s (.connect conn k)).1.caps = s.caps ∧
+    (step s (.connect conn k)).1.info.connected ≤ s.caps.maximumClients ∨
+    fc35_R s (step s (.connect conn k)).1 := by
+  cases hd : refuseCode (connState s conn k) k (parseConnect s conn k) with
+  | some code =>
+    right
+    rw [sp14_connect_refused_state s conn k code hd hf]
+    exact ⟨rfl, Int.le_refl _⟩
+  | none =>
+    left
+    obtain ⟨_, _, _, _, _, _, _, _, _, _, E1, E2⟩ := sp14_step_connect_admitted s hs hw conn k hf hd
+    refine ⟨E2, ?_⟩
+    have hb := fc35_admitted_below _ _ _ hd
+    have hb : s.info.connected < s.caps.maximumClients := hb
+    have hc := fc35_admitClient_connected (connState s conn k) s.objs.length conn k
+    have hc : (admitClient (connState s conn k) s.objs.length conn k).1.info.connected ≤ s.info.connected + 1 := hc
+    rw [E1, (nextImmediate_core (P := fun _ => True) _ _).conn]
+    omega
 
 end Mochi.Broker
